@@ -140,6 +140,11 @@ type CronJob struct {
 
 	// Err holds the error returned by the last invocation of Fn.
 	Err error
+
+	// superseded is set (under the Cron's lock) when this job was
+	// removed or replaced while its Fn was running.  Such a job
+	// must not be put back on the timeline.
+	superseded bool
 }
 
 // Timeline is the time-order list of pending CronJobs.
@@ -185,6 +190,10 @@ type Cron struct {
 
 	// The approximate maximum number pending jobs.
 	Limit int
+
+	// running holds the recurring jobs that are off the timeline
+	// because their Fn is executing.  See run().
+	running map[string]*CronJob
 }
 
 // NewCron creates a new Cron instanced.
@@ -204,7 +213,8 @@ func NewCron(broadcaster *CronBroadcaster, pause time.Duration, name string, lim
 		time.Now(),
 		pause,
 		name,
-		limit}
+		limit,
+		make(map[string]*CronJob)}
 
 	return c, nil
 }
@@ -352,6 +362,11 @@ LOOP:
 				if ready {
 					// Danger.  ToDo: Be more careful
 					c.Timeline = c.Timeline[1:]
+					if !job.Once() {
+						// Rem() and Add() need to find this
+						// job while it is off the timeline.
+						c.running[job.Id] = job
+					}
 					go func(job *CronJob) {
 						c.run(ctx, job)
 					}(job)
@@ -393,7 +408,16 @@ func (c *Cron) run(ctx *core.Context, job *CronJob) {
 	if once {
 	} else {
 		// ToDo: Consider an error here.
-		c.schedule(ctx, job, false)
+		c.Lock()
+		if job.superseded {
+			// Removed or replaced while Fn was running.
+			c.Unlock()
+			return
+		}
+		delete(c.running, job.Id)
+		job.Next = job.Expression.Next(time.Now().UTC())
+		c.scheduleLocked(ctx, job, false)
+		c.Unlock()
 	}
 }
 
@@ -454,10 +478,16 @@ func (c *Cron) schedule(ctx *core.Context, job *CronJob, checkLimit bool) error 
 	}
 
 	c.Lock()
+	err := c.scheduleLocked(ctx, job, checkLimit)
+	c.Unlock()
+	return err
+}
 
+// scheduleLocked does the work for schedule().  Assumes we have the
+// lock and that job.Next is set.
+func (c *Cron) scheduleLocked(ctx *core.Context, job *CronJob, checkLimit bool) error {
 	//remove existing job with the same id
 	if _, err := c.rem(ctx, job.Id); nil != err {
-		c.Unlock()
 		core.Log(core.WARN|CRON, ctx, "Cron.schedule", "error", err)
 		return err
 	}
@@ -475,7 +505,6 @@ func (c *Cron) schedule(ctx *core.Context, job *CronJob, checkLimit bool) error 
 		c.insert(ctx, job)
 	}
 
-	c.Unlock()
 	return err
 }
 
@@ -559,6 +588,13 @@ func (c *Cron) rem(ctx *core.Context, id string) (bool, error) {
 			found = true
 			break
 		}
+	}
+	if job, running := c.running[id]; running {
+		// The job's Fn is executing; run() will not put the job
+		// back on the timeline.
+		job.superseded = true
+		delete(c.running, id)
+		found = true
 	}
 	if !found {
 		// log.Printf("Cron.Rem %p %s job %s not found", c, c.Name, id)
